@@ -110,6 +110,62 @@ func splitQual(q string) (string, string) {
 	return q[:i], q[i+1:]
 }
 
+// tagsCheckFields: the expected tags of the listed fields (nil = every field in the table) of the listed structs
+// (keys are "types.X" for the types package and ".X" for the root package).
+func tagsCheckFields(sel map[string][]string) func(w *World) (bool, string) {
+	return func(w *World) (bool, string) {
+		var bad []string
+		n := 0
+		var keys []string
+		for k := range sel {
+			keys = append(keys, k)
+		}
+		sort.Strings(keys)
+		for _, k := range keys {
+			q := repoModule + "/" + k
+			if strings.HasPrefix(k, ".") {
+				q = repoModule + k
+			}
+			exp := expectedTags[q]
+			if exp == nil {
+				bad = append(bad, "no expected tags recorded for "+k)
+				continue
+			}
+			pp, name := splitQual(q)
+			st, err := w.lookupStruct(pp, name)
+			if err != nil {
+				bad = append(bad, err.Error())
+				continue
+			}
+			fields := sel[k]
+			if fields == nil {
+				for f := range exp {
+					fields = append(fields, f)
+				}
+				sort.Strings(fields)
+			}
+			for _, f := range fields {
+				want, known := exp[f]
+				if !known {
+					bad = append(bad, fmt.Sprintf("%s.%s: no expected tag recorded", name, f))
+					continue
+				}
+				got, _, ok := xmlTag(st, f)
+				n++
+				if !ok {
+					bad = append(bad, fmt.Sprintf("%s.%s: field missing", name, f))
+				} else if got != want {
+					bad = append(bad, fmt.Sprintf("%s.%s: xml tag %q, expected %q", name, f, got, want))
+				}
+			}
+		}
+		if len(bad) > 0 {
+			return false, strings.Join(bad, "; ")
+		}
+		return true, fmt.Sprintf("%d struct tags agree with the SAML schema binding", n)
+	}
+}
+
 func tagsCheck(structs []string, fields func(string) bool) func(w *World) (bool, string) {
 	return func(w *World) (bool, string) {
 		var bad []string
@@ -147,6 +203,9 @@ func decodeStructs() []string {
 	md := map[string]bool{}
 	for _, m := range metadataStructs {
 		md[m] = true
+	}
+	for _, m := range xmlencStructs {
+		md[m] = true // the XML-Encryption part is schema.tags.xmlenc (C11, C07)
 	}
 	var out []string
 	for k := range expectedTags {
@@ -240,7 +299,22 @@ var schemaChecks = []schemaCheck{
 	}},
 	{"schema.tags.flags", []string{"C04", "C01", "C10"}, tagsCheck([]string{repoModule + "/types.Response", repoModule + "/types.Assertion",
 		repoModule + "/types.LogoutResponse", repoModule + ".LogoutRequest"}, func(f string) bool { return f == "SignatureValidated" })},
-	{"schema.tags.decode", []string{"C08", "C01", "C03", "C05", "C06", "C10"}, tagsCheck(decodeStructs(), nil)},
+	// the inbound binding, per property: each property is held to the tags of the fields its statement is about
+	{"schema.tags.decode", []string{"C08"}, tagsCheck(decodeStructs(), nil)},
+	{"schema.tags.decode", []string{"C01"}, tagsCheckFields(map[string][]string{
+		"types.Response": {"XMLName", "Assertions", "EncryptedAssertions", "SignatureValidated"}, "types.Assertion": {"XMLName", "SignatureValidated"}})},
+	{"schema.tags.decode", []string{"C03"}, tagsCheckFields(map[string][]string{
+		"types.Response": {"XMLName", "Version", "Destination", "Issuer", "Status", "Assertions"}, "types.Status": nil, "types.StatusCode": nil, "types.Issuer": nil,
+		"types.Assertion": {"XMLName", "Issuer", "Subject"}, "types.Subject": {"XMLName", "SubjectConfirmation"}, "types.SubjectConfirmation": nil,
+		"types.SubjectConfirmationData": {"XMLName", "Recipient", "NotOnOrAfter"}})},
+	{"schema.tags.decode", []string{"C05"}, tagsCheckFields(map[string][]string{
+		"types.Response": {"Assertions"}, "types.Assertion": {"Subject", "Conditions"}, "types.Subject": {"SubjectConfirmation"},
+		"types.SubjectConfirmation": {"SubjectConfirmationData"}, "types.SubjectConfirmationData": {"NotOnOrAfter"}, "types.Conditions": {"XMLName", "NotBefore", "NotOnOrAfter"}})},
+	{"schema.tags.decode", []string{"C06"}, tagsCheckFields(map[string][]string{
+		"types.Response": {"Assertions"}, "types.Assertion": {"Conditions"}, "types.Conditions": {"XMLName", "AudienceRestrictions", "OneTimeUse", "ProxyRestriction"},
+		"types.AudienceRestriction": nil, "types.Audience": nil, "types.OneTimeUse": nil, "types.ProxyRestriction": nil})},
+	{"schema.tags.decode", []string{"C10"}, tagsCheckFields(map[string][]string{
+		"types.LogoutResponse": nil, ".LogoutRequest": nil, "types.Status": nil, "types.StatusCode": nil, "types.Issuer": nil, "types.NameID": nil})},
 	{"schema.tags.metadata", []string{"C19"}, tagsCheck(metadataStructs, nil)},
 	{"schema.encode.reflective", []string{"C19"}, func(w *World) (bool, string) {
 		var bad []string
